@@ -16,6 +16,9 @@
 #endif
 
 #define MAXPK 400
+#ifndef C03_BLOCK_SNR_DB
+#define C03_BLOCK_SNR_DB 3.0   /* an audible 2.5 ms block (reference rms >= 200 LSB) must be within this SNR of the reference decoder on the same packets; measured minimum on the pinned tree 16.6 dB over 6e6 blocks (a dropped or doubled block sits at 0 dB) */
+#endif
 typedef struct { int n; unsigned char *pkt[MAXPK]; int len[MAXPK]; int dur48[MAXPK]; } rstream;
 static void rfree(rstream *s){ for(int i=0;i<s->n;i++) free(s->pkt[i]); }
 static void emit(rstream *s,const unsigned char *p,int len){ if(s->n>=MAXPK||len<=0) return; s->pkt[s->n]=vc_exact_copy(p,len); s->len[s->n]=len; rfc_pkt m; rfc_parse(p,len,0,&m); s->dur48[s->n]=m.valid?m.count*rfc_dur48(p[0]):0; s->n++; }
@@ -50,10 +53,12 @@ static void mode_stream(void){
   OpusDecoder *r48=ref_opus_decoder_create(48000,2,&err); float *ref48=(float*)malloc(sizeof(float)*tot48*2); static opus_int16 tmp[5760*2]; long o=0; for(int i=0;i<s.n;i++){ int rc=ref_opus_decode(r48,s.pkt[i],s.len[i],tmp,5760,0); if(rc!=s.dur48[i]){ fprintf(stderr,"reference decoder returned %d for a %d-sample packet\n",rc,s.dur48[i]); exit(3); } for(int k=0;k<rc*2;k++) ref48[o*2+k]=tmp[k]; o+=rc; } ref_opus_decoder_destroy(r48);
   int nconf=(int)vc_argl("configs",3); int used[10]; memset(used,0,sizeof used);
   for(int cfg=0;cfg<nconf;cfg++){ int ci=vc_below(&r,10); if(used[ci]) continue; used[ci]=1; int Fs=vk_rates[ci%5], ch=1+ci/5;
-    OpusDecoder *dt=opus_decoder_create(Fs,ch,&err); OpusDecoder *dr=ref_opus_decoder_create(Fs,ch,&err); OpusDecoder *dx=TREE_FIXED?rfx_opus_decoder_create(Fs,ch,&err):NULL; static opus_int16 bx[5760*2]; long n=tot48*Fs/48000; float *yt=(float*)malloc(sizeof(float)*n*ch), *yr=(float*)malloc(sizeof(float)*n*ch); static opus_int16 a[5760*2], b[5760*2]; long pos=0; int ok=1; double maxd=0; long ndiff=0; int prevtoc=-1;
+    OpusDecoder *dt=opus_decoder_create(Fs,ch,&err); OpusDecoder *dr=ref_opus_decoder_create(Fs,ch,&err); OpusDecoder *dx=TREE_FIXED?rfx_opus_decoder_create(Fs,ch,&err):NULL; static opus_int16 bx[5760*2]; long n=tot48*Fs/48000; float *yt=(float*)malloc(sizeof(float)*n*ch), *yr=(float*)malloc(sizeof(float)*n*ch); static opus_int16 a[5760*2], b[5760*2]; long pos=0; int ok=1; double maxd=0; long ndiff=0; int prevtoc=-1; long blockbad=0; char blockmsg[200]; blockmsg[0]=0;
     for(int i=0;i<s.n;i++){ int want=(int)((long)s.dur48[i]*Fs/48000); int ra=opus_decode(dt,s.pkt[i],s.len[i],a,want,0), rb=ref_opus_decode(dr,s.pkt[i],s.len[i],b,want,0); if(dx){ int rx=rfx_opus_decode(dx,s.pkt[i],s.len[i],bx,want,0); if(rx==rb) memcpy(b,bx,sizeof(opus_int16)*rx*ch); /* PCM reference for a fixed-point tree = the frozen reference built fixed-point */ } opus_uint32 fa=0,fb=0; opus_decoder_ctl(dt,OPUS_GET_FINAL_RANGE(&fa)); ref_opus_decoder_ctl(dr,OPUS_GET_FINAL_RANGE(&fb)); vc_count("packets_compared",1);
       if(ra!=rb||ra!=want){ vc_viol("count-differs","packet %d (toc %02x, %d bytes): tree decoder returned %d, reference %d, expected %d (decoder %d Hz %d ch; %s)",i,s.pkt[i][0],s.len[i],ra,rb,want,Fs,ch,desc); ok=0; break; }
       if(fa!=fb){ vc_viol("final-range-differs","packet %d (toc %02x, %d bytes, previous toc %02x): tree final range %08x, reference %08x (decoder %d Hz %d ch; %s)",i,s.pkt[i][0],s.len[i],prevtoc&0xff,fa,fb,Fs,ch,desc); ok=0; break; }
+      /* segmental view (2.5 ms blocks, per channel): the error of an audible block against the reference decoder on the same packets */
+      { int bl=Fs/400; for(int c0=0;c0<ch;c0++) for(int b0=0;b0+bl<=ra;b0+=bl){ double er=0,ee=0; for(int k=b0;k<b0+bl;k++){ double x=b[k*ch+c0], y=a[k*ch+c0]; er+=x*x; ee+=(x-y)*(x-y); } if(er>=bl*200.0*200.0){ double sn=10*log10((er+1e-9)/(ee+1e-9)); vc_min("audible_block_snr_vs_reference_db",sn); vc_count("audible_blocks_compared",1); if(sn<C03_BLOCK_SNR_DB){ blockbad++; if(blockbad==1) snprintf(blockmsg,sizeof blockmsg,"packet %d (toc %02x, previous toc %02x) block at sample %d channel %d: %.1f dB",i,s.pkt[i][0],prevtoc&0xff,b0,c0,sn); } } } }
       { double pm=0; for(int k=0;k<ra*ch;k++){ yt[pos*ch+k]=a[k]; yr[pos*ch+k]=b[k]; double d=fabs((double)a[k]-b[k]); if(d>maxd) maxd=d; if(d>pm) pm=d; if(d>0) ndiff++; } pos+=ra; if(vc_verbose&&pm>50) fprintf(stderr,"  pkt %d toc %02x len %d dur48 %d: max diff %.0f (prev toc %02x)\n",i,s.pkt[i][0],s.len[i],s.dur48[i],pm,prevtoc&0xff); }
       if(prevtoc>=0&&rfc_mode(prevtoc)!=rfc_mode(s.pkt[i][0])) vc_named("transition:%d->%d",rfc_mode(prevtoc),rfc_mode(s.pkt[i][0])); { rfc_pkt m; rfc_parse(s.pkt[i],s.len[i],0,&m); if(m.count>1) vc_named("multiframe-code%d",s.pkt[i][0]&3); if(m.pad>0) vc_named("padded"); }
       vc_sig3((uint64_t)s.pkt[i][0],(uint64_t)(Fs/8000)|((uint64_t)ch<<3),(uint64_t)(prevtoc>=0&&rfc_mode(prevtoc)!=rfc_mode(s.pkt[i][0]))); prevtoc=s.pkt[i][0]; }
@@ -61,6 +66,7 @@ static void mode_stream(void){
       /* the RFC procedure against the 48 kHz stereo output is reported only: on arbitrary (low-rate, mode-switching) streams the reference decoder
          itself does not always pass it at other output rates, so it cannot serve as a verdict; the property's clause is the same-rate comparison */
       vc_count(q1>=0?"rfc_procedure_passes":"rfc_procedure_fails_(informational)",1);
+      if(blockbad) vc_viol("pcm-block-far-from-reference","%ld audible 2.5 ms block(s) of the tree decoder's output are less than %.0f dB (SNR) from the reference decoder's output for the same packets, first: %s (decoder %d Hz %d ch; %s)",blockbad,(double)C03_BLOCK_SNR_DB,blockmsg,Fs,ch,desc);
       if(q2<0) vc_viol("pcm-fails-rfc-metric:same-rate","tree decoder at %d Hz %d ch fails the RFC metric against the reference decoder at the same rate and channels: quality %.1f %%, max sample difference %.0f (%s)",Fs,ch,q2,maxd,desc); }
     free(yt); free(yr); opus_decoder_destroy(dt); ref_opus_decoder_destroy(dr); if(dx) rfx_opus_decoder_destroy(dx); if(!ok) break; }
   if(vc_want_sample()) vc_sample("{\"mode\":\"stream\",\"stream\":\"%s\",\"packets\":%d,\"seconds\":%.2f}",desc,s.n,tot48/48000.0);
